@@ -1,11 +1,20 @@
 (* allow-axioms:  *)
-From RRE Require Import Base.Sx Base.Float Base.Num Model.ExprShape Model.Forward Model.ForwardSpec Proofs.ForwardProofs.
+From RRE Require Import Base.Sx Base.Float Base.Num Model.ExprShape Model.Forward Model.ForwardSpec Proofs.ForwardProofs Proofs.ForwardExprProofs Proofs.ForwardStepProofs.
 Open Scope Z_scope.
 From RRE Require Import Properties.C01.
+Check (C01_evaluator_computes_the_tree : forall f e, wf e = true -> evaluate_expression f (pr e) = meval f e).
+Check (C01_expression_value : forall f e v, wf e = true -> atoms_ok e -> den f e = Some v ->
+  evaluate_expression f (pr e) = EOk v).
+Check (C01_operator_table : forall o x y b, sem_cmp o x y = Some b -> op_eval o x y = b).
+Check (C01_condition_total : forall f g, exists b, eval_group f g = BOk b).
+Check (C01_consideration : forall f r cr x, rule_ok r -> compile_rule r = Some cr ->
+  sem_step true f r = Some x -> model_step f cr = x).
+Check (C01_run : forall rs crs f res, Forall rule_ok rs -> compiled rs = Some crs ->
+  run_rules (sem_step true) (sorted_spec rs) f = Some res ->
+  run_rules (fun f r => Some (model_step f r)) (sorted_model crs) f = Some res).
+Check (C01_strict_reading_refines_monitor : forall rs f res,
+  run_rules (sem_step true) rs f = Some res -> run_rules (sem_step false) rs f = Some res).
 Check (C01_run_follows_considerations : forall (R1 R2 : Type) (sem : facts -> R1 -> option sres) (eng : facts -> R2 -> option sres) (rel : R1 -> R2 -> Prop),
     (forall f r1 r2 x, rel r1 r2 -> sem f r1 = Some x -> eng f r2 = Some x) ->
     forall rs1 rs2 f res, rel_rules rel rs1 rs2 ->
       run_rules sem rs1 f = Some res -> run_rules eng rs2 f = Some res).
-Check (C01_salience_order_aligned : forall (T1 T2 : Type) (rel : T1 -> T2 -> Prop) (l1 : list (Z * Z * T1)) (l2 : list (Z * Z * T2)),
-    Forall2 (fun a b => fst a = fst b /\ rel (snd a) (snd b)) l1 l2 ->
-    Forall2 (fun x y => fst x = fst y /\ rel (snd x) (snd y)) (by_salience l1) (by_salience l2)).
